@@ -15,6 +15,9 @@ type gen struct {
 	nextID  int
 	nextVar int
 	budget  int // remaining field budget
+	// boost (history cases): field resolvers on composite results are selected much more often, so
+	// that most operations have chains of dependent resolve RPCs. false = the original rates.
+	boost bool
 	// features of the generated operation (evidence)
 	feat map[string]bool
 }
@@ -176,6 +179,9 @@ func (g *gen) selection(typeName string, depth int, entityTop bool) []*node {
 			p := 0.5
 			if g.m.resolver[typeName+"."+f.Name] {
 				p = 0.3
+				if g.boost {
+					p = 0.5
+				}
 			}
 			if rarelyGenerated[typeName+"."+f.Name] {
 				p = 0.03
@@ -189,6 +195,9 @@ func (g *gen) selection(typeName string, depth int, entityTop bool) []*node {
 				p := 0.45 / float64(depth)
 				if g.m.resolver[typeName+"."+f.Name] {
 					p = 0.3 / float64(depth)
+					if g.boost {
+						p = 0.8
+					}
 				}
 				if rarelyGenerated[typeName+"."+f.Name] {
 					p = 0.02
@@ -428,8 +437,16 @@ func (g *gen) entityOperation() (*operation, []fedConfig) {
 		ent.sels = append(ent.sels, fr)
 	}
 	// representations: 1..4, types interleaved
-	reps := &val{kind: vList}
 	n := 1 + g.r.IntN(4)
+	reps := g.representations(types, need, n)
+	op := &operation{opType: "query", entity: true, reps: reps, sels: []*node{ent}, entTypes: types, entNeed: need}
+	return op, fed
+}
+
+// representations builds n representations of the given entity types (interleaved) with the
+// fields the selected @requires fields need.
+func (g *gen) representations(types []string, need map[string]*reqSel, n int) *val {
+	reps := &val{kind: vList}
 	for i := 0; i < n; i++ {
 		t := types[g.r.IntN(len(types))]
 		obj := &val{kind: vObject}
@@ -444,6 +461,35 @@ func (g *gen) entityOperation() (*operation, []fedConfig) {
 		}
 		reps.list = append(reps.list, obj)
 	}
-	op := &operation{opType: "query", entity: true, reps: reps, sels: []*node{ent}}
-	return op, fed
+	return reps
+}
+
+// revalue: the same operation with other argument values (literals and variables alike: the
+// planner's normalisation extracts both into variables) resp. other representations. The
+// selection, the aliases and the variable names stay as they are.
+func (g *gen) revalue(op *operation) *operation {
+	c := op.clone()
+	c.visit(func(n *node) {
+		if n.kind != nField || isEntityRoot(n) {
+			return
+		}
+		fd := g.m.field(n.parent, n.name)
+		if fd == nil {
+			return
+		}
+		for i := range n.args {
+			ad := fd.Arguments.ForName(n.args[i].name)
+			if ad == nil || n.args[i].v == nil {
+				continue
+			}
+			if g.chance(0.7) {
+				n.args[i].v = g.value(ad.Type, 0)
+			}
+		}
+	})
+	if c.entity && len(c.entTypes) > 0 {
+		n := g.r.IntN(5) // 0..4: an empty list of representations is a valid request
+		c.reps = g.representations(c.entTypes, c.entNeed, n)
+	}
+	return c
 }
